@@ -13,12 +13,9 @@ theorem toValueInt_safe {k : IntKind} {v : Int} (hs : Safe v) : toValueInt k v =
   have h64 := safe_in_i64 hs
   cases k <;> simp [toValueInt, intToValue, hs, h64.2]
 
-theorem toValueInt_unsafe {k : IntKind} {v : Int} (hs : ¬ Safe v) (h64 : v ≤ 9223372036854775807) :
-    toValueInt k v = .flt (.intval (round53 v)) := by
-  cases k <;> simp [toValueInt, intToValue, hs, h64]
-
-theorem toValueInt_big {k : IntKind} {v : Int} (hk : k = .uint ∨ k = .uint64) (h64 : ¬ v ≤ 9223372036854775807) :
+/-- beyond ±2^53 every integer kind goes through floatToValue(float64(v)) -/
+theorem toValueInt_unsafe {k : IntKind} {v : Int} (hs : ¬ Safe v) :
     toValueInt k v = floatToValue (.intval (round53 v)) := by
-  rcases hk with rfl | rfl <;> simp [toValueInt, h64]
+  cases k <;> simp [toValueInt, intToValue, hs]
 
 end GojaModel.C13
